@@ -155,7 +155,7 @@ func VH_C13_multi() {
 	w := 3
 	tol := vGridTol(w, 0)
 	if vChoose(2) == 0 {
-		ml := MultiLineString{LineString(vGridPath(3, 4, w, 0)), LineString(vGridPath(3, 3, w, 0))}
+		ml := MultiLineString{LineString(vGridPath(3, 2+vBound(1, 2), w, 0)), LineString(vGridPath(3, 3, w, 0))}
 		out := ml.Simplify(tol).(MultiLineString)
 		vAssert(len(out) == len(ml), "member-count-kept")
 		for i := range ml {
